@@ -6,7 +6,7 @@
     x |-> Derivative(x,1). *)
 From Coq Require Import Reals ZArith List.
 From Coquelicot Require Import Coquelicot.
-From LP Require Import Num NumR C01_Model C01_Proofs C01_Proofs_Table C01_Proofs_Global C01_Proofs_Accept C01_Proofs_Session C01_Proofs_Bounds.
+From LP Require Import Num NumR C01_Model C01_Model2 C01_Proofs C01_Proofs_Table C01_Proofs_Global C01_Proofs_Accept C01_Proofs_Session C01_Proofs_Bounds C01_Proofs_Safe Gen_C01_Formulas C01_GenTie.
 Import ListNotations.
 Local Open Scope R_scope.
 
@@ -443,3 +443,73 @@ Theorem C01_edge_zone_bound xs ys : valid_table xs ys -> forall x,
                Rabs (v - nth (length xs - 1) ys 0) <= 3 / 100 * Rabs (nth (length xs - 1) ys 0 - nth (length xs - 2) ys 0)).
 Proof. exact (edge_zone_bound xs ys). Qed.
 Print Assumptions C01_edge_zone_bound.
+
+(** ------------------------------------------------------------------------------------------------------------------
+    Seventh pass.
+
+    Memory safety of every request, for EVERY arithmetic (any NumOps instance; no law about the comparisons or the
+    operations is used, so this holds for the doubles as they are -- NaN ordinates, infinite query points, comparisons that all
+    answer false included): on whatever object Interpolation(xs, ys, x_dim, f_dim) returns, Locate either terminates the process
+    (its documented exits) or returns an index j with j + 1 < N; Bisection ends within N iterations (the model never reports Fuel)
+    and reads x_values only inside the table; Interpolate and Derivative(., k), every k, read x_values[j], a[j], b[j], c[j], d[j]
+    in bounds (the model never reports OOB) and return a number, and Interpolate exits exactly when Locate does.
+    Non-vacuity: [in_bounds_example]. *)
+Theorem C01_queries_in_bounds_every_arithmetic : forall (T : Type) (Ops : NumOps T) (xs ys : list T) (xd fd : T) (o : itab) (x : T),
+  construct Ops xs ys xd fd = Ok o ->
+  (locate Ops o x = Exit \/ exists j, locate Ops o x = Ok j /\ (S j < iN o)%nat) /\
+  (interpolate Ops o x = Exit <-> locate Ops o x = Exit) /\
+  (interpolate Ops o x = Exit \/ exists v, interpolate Ops o x = Ok v) /\
+  (forall k, derivative Ops o x k = Exit \/ exists v, derivative Ops o x k = Ok v).
+Proof. exact (@queries_in_bounds). Qed.
+Print Assumptions C01_queries_in_bounds_every_arithmetic.
+
+(** Bisection(x, jLeft, jRight) by itself, every arithmetic: for 0 <= jLeft < jRight < N it returns an index in [jLeft, jRight) within
+    jRight - jLeft iterations, whatever the comparisons answer (induction over the fuel) *)
+Theorem C01_bisection_range : forall (T : Type) (Ops : NumOps T) fuel (xs : list T) x jl jr,
+  (0 <= jl)%Z -> (jl < jr)%Z -> (jr < Z.of_nat (length xs))%Z -> (jr - jl <= Z.of_nat fuel)%Z ->
+  exists j, bisection Ops fuel xs x jl jr = Ok j /\ (jl <= j < jr)%Z.
+Proof. exact (@bisection_range). Qed.
+Print Assumptions C01_bisection_range.
+
+(** operator() of both classes is Interpolate (Numerics.hpp), every arithmetic *)
+Theorem C01_call_operator_is_interpolate : forall (T : Type) (Ops : NumOps T),
+  (forall o x, call1 Ops o x = interpolate Ops o x) /\ (forall o x y, call2 Ops o x y = interpolate2 Ops o x y).
+Proof. exact (@call_is_interpolate). Qed.
+Print Assumptions C01_call_operator_is_interpolate.
+
+(** 2D, "all query points: ... the 1 % extrapolation zone at both ends" (until now correspondence only): for a grid with at least
+    three abscissae on each axis, Interpolate(x, y) answers exactly when x and y each lie in the open zone of their axis
+    ([in_zone l x] = l_0 - 1% (l_1 - l_0) < x < l_{N-1} + 1% (l_{N-1} - l_{N-2})), with the bilinear form of the cell Locate selects
+    on each axis -- the first / last cell outside the table (whose form is then extrapolated), a cell containing the point inside --
+    and terminates the process everywhere else.  Non-vacuity: C01_default_objects below (a point in the zone of both axes). *)
+Theorem C01_interpolate2_total xs ys f : valid_grid xs ys f -> (3 <= length xs)%nat -> (3 <= length ys)%nat -> forall x y,
+  (in_zone xs x /\ in_zone ys y ->
+     exists i j, (S i < length xs)%nat /\ (S j < length ys)%nat /\ interpolate2 ROps (grid xs ys f) x y = Ok (BIL xs ys f i j x y) /\
+       (x < nth 0 xs 0 -> i = 0%nat) /\ (nth (length xs - 1) xs 0 < x -> i = (length xs - 2)%nat) /\
+       (nth 0 xs 0 <= x <= nth (length xs - 1) xs 0 -> nth i xs 0 <= x <= nth (S i) xs 0) /\
+       (y < nth 0 ys 0 -> j = 0%nat) /\ (nth (length ys - 1) ys 0 < y -> j = (length ys - 2)%nat) /\
+       (nth 0 ys 0 <= y <= nth (length ys - 1) ys 0 -> nth j ys 0 <= y <= nth (S j) ys 0)) /\
+  (~ (in_zone xs x /\ in_zone ys y) -> interpolate2 ROps (grid xs ys f) x y = Exit).
+Proof. exact (interpolate2_total xs ys f). Qed.
+Print Assumptions C01_interpolate2_total.
+
+(** The default constructors: Interpolation() is the table (-1, 0, 1) -> (0, 0, 0) and Interpolation_2D() the 3 x 3 grid of zeros on
+    (-1, 0, 1)^2, both accepted by their constructors; they answer 0 (value and all derivatives) exactly on the open zone
+    (-1.01, 1.01) resp. its square, and terminate the process elsewhere. *)
+Theorem C01_default_objects :
+  (exists o, default1 ROps = Ok o /\ forall x,
+     (- (101 / 100) < x < 101 / 100 ->
+        interpolate ROps o x = Ok 0 /\ derivative ROps o x 1 = Ok 0 /\ derivative ROps o x 2 = Ok 0 /\ derivative ROps o x 3 = Ok 0) /\
+     (~ (- (101 / 100) < x < 101 / 100) -> interpolate ROps o x = Exit)) /\
+  (exists o, default2 ROps = Ok o /\ forall x y,
+     (- (101 / 100) < x < 101 / 100 /\ - (101 / 100) < y < 101 / 100 -> interpolate2 ROps o x y = Ok 0) /\
+     (~ (- (101 / 100) < x < 101 / 100 /\ - (101 / 100) < y < 101 / 100) -> interpolate2 ROps o x y = Exit)).
+Proof. exact (conj default1_zero default2_zero). Qed.
+Print Assumptions C01_default_objects.
+
+(** T-tie: libphysica::Sign(double), regenerated from src/Special_Functions.cpp by tools/cxx2gallina.py on every run of the check
+    ([g_Sign], Gen_C01_Formulas.v), is the sign function [sign1] with which the model's slope limiter [dyy] is written -- in every
+    arithmetic in which the source literal 0.0 is the constant 0 ([Lit0]; it is over the reals: [ROps_Lit0]). *)
+Theorem C01_generated_Sign_is_model : forall (T : Type) (Ops : NumOps T), Lit0 Ops -> forall x, g_Sign Ops x = sign1 Ops x.
+Proof. exact (@gen_Sign_is_model). Qed.
+Print Assumptions C01_generated_Sign_is_model.
